@@ -69,6 +69,17 @@ CHECKS = {
                 "ymin<=ymax assumed; at most 400 decisions per path (never hit)",
         "technique": "symbolic execution of the Python source on z3 real terms + SMT (QF_NRA) obligations per path, counterexample replay",
     },
+    "C09": {
+        "text": "L1: points_in_tolerance is executed on n symbolic points (unbounded reals) and a symbolic tolerance; per path z3 (QF_NRA) proves "
+                "True <=> every interior point closer than tol to the chord (restated division-free), the input is not mutated, and the "
+                "result equals max_dist_from_n_points(pts) < tol with ffgeom executed symbolically (sqrt as a fresh root). L2: supersample "
+                "is executed with the predicate replaced by a memoised nondeterministic stub on lists up to the bound, exploring every "
+                "answer sequence: in-order subsequence of the same objects, first/last kept, every deleted run is the interior of a slice "
+                "judged in tolerance, short lists / non-positive tolerances untouched. L1+L2 give the property.",
+        "note": "exact-real model of binary64; n <= 4 (quick) / 5 (thorough) points for L1, lists <= 6 / 9 for L2; the composition of L1 and "
+                "L2 is a paper argument (the stub's contract is L1)",
+        "technique": "symbolic execution of the Python source on z3 real terms + SMT (QF_NRA) obligations per path; nondeterministic stub for the structural lemma; counterexample replay",
+    },
     "C13": {
         "text": "spatial_grid.Index construction, removal and nearest() are executed on paths whose end points and the query are unbounded "
                 "symbolic reals, for concrete grid sizes, both reversal settings and every removal subset; per path z3 (QF_NRA) proves "
